@@ -247,4 +247,28 @@ def run (e : Enc) : List (Op × Sched) → Enc
   | [] => e
   | (op, s) :: rest => run (step e op s) rest
 
+/-! ### the calling discipline of the marshalers -/
+
+/-- The calls after which a member value is complete. -/
+def Tok.valueEnd : Tok → Bool
+  | .scalar _ | .str _ | .closeObj | .closeArr => true
+  | _ => false
+
+/-- One call under the discipline of arshal_default.go:1228-1243: UnwriteEmptyObjectMember is only ever called
+directly after the (accepted) call that completed the member value.  The Bool remembers that ("fresh"); a call of
+UnwriteEmptyObjectMember at any other moment is a violation of the function's contract (like the states in which the
+Go function panics with "BUG") and is modelled as doing nothing.  A rejected token call changes nothing. -/
+def stepD (ef : Enc × Bool) (op : Op) (s : Sched) : Enc × Bool :=
+  match op with
+  | .tok t ws =>
+    match write ef.1 t ws with
+    | none => ef
+    | some _ => (step ef.1 (.tok t ws) s, t.valueEnd)
+  | .unwriteEmpty => if ef.2 then (step ef.1 .unwriteEmpty s, false) else ef
+  | .unwriteName => (step ef.1 .unwriteName s, false)
+
+def runD (ef : Enc × Bool) : List (Op × Sched) → Enc × Bool
+  | [] => ef
+  | (op, s) :: rest => runD (stepD ef op s) rest
+
 end JsonV.Model.Flush
